@@ -262,7 +262,8 @@ func verifC09Rank(rx, ry, rz int) {}
 //@   props C06
 //@   requires m != nil && matchOK(deref(m))
 //@   ensures m.m == nil ==> r == m.x
-//@   ensures m.m != nil ==> (r <==> forall i int :: 0 <= i < m.n ==> bit(m.m, i))
+//@   ensures m.m != nil && r ==> forall i int :: 0 <= i < m.n ==> bit(m.m, i)
+//@   ensures m.m != nil && !r ==> exists w int :: 0 <= w < len(m.m) && (m.m[w] | (bv32(4294967295) << bv32(m.n - w*32 >= 32 ? 32 : m.n - w*32))) != bv32(4294967295)
 //@   loop 1:
 //@     invariant 0 <= idx() <= len(m.m)
 //@     invariant forall i int :: 0 <= i < m.n && i < 32*idx() ==> bit(m.m, i)
@@ -272,7 +273,8 @@ func verifC09Rank(rx, ry, rz int) {}
 //@   props C06
 //@   requires m != nil && matchOK(deref(m))
 //@   ensures m.m == nil ==> r == m.x
-//@   ensures m.m != nil ==> (r <==> exists i int :: 0 <= i < m.n && bit(m.m, i))
+//@   ensures m.m != nil && !r ==> forall i int :: 0 <= i < m.n ==> !bit(m.m, i)
+//@   ensures m.m != nil && r ==> exists w int :: 0 <= w < len(m.m) && (m.m[w] & ^(bv32(4294967295) << bv32(m.n - w*32 >= 32 ? 32 : m.n - w*32))) != bv32(0)
 //@   loop 1:
 //@     invariant 0 <= idx() <= len(m.m)
 //@     invariant forall i int :: 0 <= i < m.n && i < 32*idx() ==> !bit(m.m, i)
